@@ -338,6 +338,38 @@ def check_plumbing(ck: Check) -> None:
                         recvs[0].loc)
 
 
+def _ends_connection(h) -> bool:      # type: ignore
+    import ast
+    return any(isinstance(n, ast.Call) and isinstance(n.func, ast.Attribute) and ("disconnect" in n.func.attr or n.func.attr == "close")
+               for st in h.body for n in ast.walk(st))
+
+
+def check_failures_end_the_stream(ck: Check) -> None:
+    """P9: the parser drains its buffer by re-entering itself after each frame; a failure while a frame is handled unwinds through that
+    re-entry. That is sound only because nothing below the per-connection catch-all absorbs it: the connection is closed and the
+    rest of the buffer is moot. A handler on the way that carries on leaves complete frames undelivered until the next read."""
+    path = [("skepticoin.networking.remote_peer.ConnectedRemotePeer.handle_receive_data", MR + "receive"),
+            (MR + "receive", MR + "handle_message_data"), (MR + "receive", MR + "receive"),
+            (MR + "handle_message_data", "skepticoin.networking.remote_peer.ConnectedRemotePeer.handle_message_received")]
+    n = 0
+    for caller, callee in path:
+        s = ck.summ(caller, 0)
+        for e in s.events:
+            if e.kind != "call" or callee not in e.targets:
+                continue
+            n += 1
+            construct = "%s: a failure of %s unwinds to the per-connection catch-all" % (short(caller), short(callee))
+            quiet = [(types, ti) for ti in e.tries for (types, reraises), h in zip(ti.handlers, ti.node.handlers)
+                     if not reraises and not _ends_connection(h)]
+            if quiet:
+                ck.violated("P9", construct, "a handler for %s carries on with the connection: the frames that were complete in the same read "
+                            "stay in the buffer until more bytes arrive — what is delivered now depends on where the reads were cut"
+                            % ", ".join(sorted({(t or ["everything"])[0].split(".")[-1] for t, _ in quiet})), e.loc)
+            else:
+                ck.ok("P9", construct, "", e.loc)
+    ck.expect_count("P9", "calls on the way from the socket to the message handler", n, 3)
+
+
 def check(ck: Check) -> None:
     ck.explanations.append(
         "C11: chunk-independence follows from a syntactic discipline of the incremental parser. The checker decides premises P1–P7 on the "
@@ -347,3 +379,4 @@ def check(ck: Check) -> None:
     ck.run("P1-P7", "premises on MessageReceiver.receive", lambda: check_receive(ck))
     ck.run("P7b", "dispatch and initial state", lambda: check_dispatch(ck))
     ck.run("P1b", "socket -> parser plumbing", lambda: check_plumbing(ck))
+    ck.run("P9", "a failure while a frame is handled ends the stream", lambda: check_failures_end_the_stream(ck))
